@@ -216,10 +216,10 @@ class Parser:
         elif next_tag is _imaginary:
             return complex(pstate.next_str_and_advance())
         elif next_tag is _true:
-            assert pstate.next_str_and_advance() == "True"
+            pstate.advance()
             return True
         elif next_tag is _false:
-            assert pstate.next_str_and_advance() == "False"
+            pstate.advance()
             return False
         elif next_tag is _identifier:
             return primitives.Variable(pstate.next_str_and_advance())
